@@ -94,7 +94,7 @@ PROPS = {
                  "1..64 bytes, optionally followed by a direct SCPI_Parse of the NUL-terminated line; and grammar-decoded messages (headers "
                  "from the table, typed and malformed parameters, mutations). Handlers apply every SCPI_Param*/Expr*/Result* API with tight "
                  "caller buffers; the same grammar decoder driven by rapidcheck (c01) in the four configurations, a quarter of its cases also handed to SCPI_Parse directly. "
-                 "Oracle: any sanitizer report, structural invariants after every call, libFuzzer's 25 s hang detector / the 20 s CPU-time watchdog A quarter of the structure-aware cases run next to a second instrument in the same process (other table positions, shorter table, other units; fed the same chunks before/after, poked from handlers and write callbacks), an eighth on an interface without the optional callbacks.",
+                 "Oracle: any sanitizer report, structural invariants after every call, libFuzzer's 25 s hang detector / the 20 s CPU-time watchdog A quarter of the structure-aware cases run next to a second instrument in the same process (other table positions, shorter table, other units; fed the same chunks before/after, poked from handlers and write callbacks), an eighth on an interface without the optional callbacks. A third of the cases use long or NULL identification strings; shipped commands are appended to a fifth of the generated streams.",
         "level_note": "libFuzzer campaigns are only approximately reproducible from a seed: the saved artifact is the reproducible unit; uninitialised reads are only visible where they change behaviour (no MSan)",
         "design_ref": "DESIGN.md section 4, C01",
         "runs": c01_runs,
@@ -109,7 +109,7 @@ PROPS = {
                  "for unit detection (well-formedness, length, data extent, parameter count, termination); each string in exact-size buffers "
                  "at two offsets and in a buffer followed by tempting continuation bytes; tokens pre-filled with garbage; every byte value 0..255 at every "
                  "position of every string up to length 3 (quick) / 4 (thorough) over the same alphabets; definite-length blocks with announced lengths "
-                 "up to 262144 (complete, one byte short, followed by another parameter); long generated tokens",
+                 "up to 262144 (complete, one byte short, followed by another parameter); long generated tokens Second configuration: plain char unsigned (-funsigned-char).",
         "level_note": "suffix program data is checked one-sidedly against the strict 488.2 syntax (the source documents a relaxed one); an incomplete block at the end of input swallows the rest (documented) and is accepted as such",
         "design_ref": "DESIGN.md section 4, C13",
         "runs": simple("c13", cfgs=("default", "uchar")),
@@ -122,7 +122,7 @@ PROPS = {
         "level": "random command tables whose handlers read every parameter type, emit every result type, fail, raise own errors, leave "
                  "streamed blocks unfinished or send block data without a header; A = 1..4 generated messages (well-formed and mutated, "
                  "failing midway, with unread parameters, deep compound headers, or ending incomplete and flushed); B = a generated "
-                 "terminated message; handler invocations, parameters, output bytes, flushes, error callbacks and the return value of B compared An eighth of the cases run next to a second instrument in the same process.",
+                 "terminated message; handler invocations, parameters, output bytes, flushes, error callbacks and the return value of B compared An eighth of the cases run next to a second instrument in the same process. A tenth of the table entries have no callback.",
         "level_note": "B never reads status registers or the error queue and the queue (128) never overflows, so the only legitimate carry-over is excluded by construction",
         "design_ref": "DESIGN.md section 4, C09",
         "runs": simple("c09", cfgs=("default", "heap")),
@@ -136,7 +136,7 @@ PROPS = {
         "level": "random command tables with diverse scripted handlers x streams of 1..8 messages (well-formed and byte-mutated; blocks with "
                  "embedded CR/LF/;, strings, empty units, all three terminators, interior zero-length flush calls, possibly ending in an "
                  "incomplete message) x every single split point + 8 random chunkings + all-at-once, in a large buffer and in a buffer that "
-                 "is exactly sufficient (only chunkings the pending-byte profile of the reference run admits) An eighth of the streams run next to a second instrument that is fed every chunk and a lone CR.",
+                 "is exactly sufficient (only chunkings the pending-byte profile of the reference run admits) An eighth of the streams run next to a second instrument that is fed every chunk and a lone CR. A sixth of the streams follow an overrun (the same two calls in every run); a tenth of the table entries have no callback.",
         "level_note": "return values of SCPI_Input are not compared (the statement does not mention them; C05 covers them per call); while finding "
                       "C08-F1 is listed, CR/LF inside any quoted span that is closed later is replaced by a blank before the stream is used",
         "design_ref": "DESIGN.md section 4, C08",
@@ -237,7 +237,7 @@ PROPS = {
         "level": "all ten element types x lengths 0..300 x NORMAL/SWAPPED, blocks 0..300 bytes, header-only calls for every power of ten up to "
                  "10^8 and 999999999, every split of a streamed block of <= 12 bytes into <= 4 data calls with an over-length attempt at "
                  "every point and items before/after, blocks left at every fill level by one unit of a compound message and continued without a header by the next unit(s), "
-                 "plus random sequences of arrays, blocks, streamed blocks and scalars over 1..3 units of one message; byte-identical output, exactly one -310 per refused data call A quarter of the cases run next to a second instrument that answers the same query from inside this one's write callback.",
+                 "plus random sequences of arrays, blocks, streamed blocks and scalars over 1..3 units of one message; byte-identical output, exactly one -310 per refused data call A quarter of the cases run next to a second instrument that answers the same query from inside this one's write callback. Array sources are handed over in read-only pages followed by an inaccessible page; arrays up to 33000 elements.",
         "level_note": "only a little-endian host can be executed; the response terminator is not asserted here (C06); a block header is always followed by at least one data call; "
                       "left open: an empty data call where no block was announced, and the separator before an item that follows an incomplete block in a later unit",
         "design_ref": "DESIGN.md section 4, C17",
@@ -251,7 +251,7 @@ PROPS = {
         "technique": "model-based stateful testing in the static-heap build: reference queue whose entries carry 'the pushed text or nothing', unique texts per history, exact-size heap under ASan, full-reuse probe after every history",
         "level": "all operation sequences over pushes with texts of every length 0..heap size, text-less pushes, SYST:ERR?, pop+release and clear "
                  "for heap sizes 2..12 and queue capacities 1..4 up to a per-heap length bound (listed in the evidence), plus random histories "
-                 "of up to 1000 operations on heaps of 2..256 bytes; texts are pushed NUL-terminated, from exact-size unterminated buffers with an explicit length, and with an explicit length shorter than what follows",
+                 "of up to 1000 operations on heaps of 2..256 bytes; texts are pushed NUL-terminated, from exact-size unterminated buffers with an explicit length, and with an explicit length shorter than what follows A fifth of the random heaps are 257..700 bytes with explicit-length texts of up to 600 characters; after draining, a text filling the whole heap must be stored.",
         "level_note": "only the USE_MEMORY_ALLOCATION_FREE=0 configuration is built; popped texts are released by the harness with scpiheap_free(..., false) as SCPI_SystemErrorNextQ does; texts are at most 255 characters",
         "design_ref": "DESIGN.md section 4, C20",
         "runs": simple("c20", cfgs=("heap",)),
@@ -265,7 +265,7 @@ PROPS = {
         "level": "every operation sequence up to length 6 (quick) / 8 (thorough) over a 7-letter alphabet x capacities 1..4 x failure of every "
                  "single text duplication, plus random histories of up to 300 and up to 10^4 operations with arbitrary 7-bit texts of 0..300 "
                  "characters, plus one scheduled history of 70 k (quick) / 400 k (thorough) pushes per capacity in {1..7, 12, 16, 17}, "
-                 "in the malloc build and the build without device-dependent information A quarter of the random cases have an application backlog that the error callback re-queues when the queue runs empty.",
+                 "in the malloc build and the build without device-dependent information A quarter of the random cases have an application backlog that the error callback re-queues when the queue runs empty. A fifth of the random cases run with a write callback that queues an error while a response is written.",
         "level_note": "texts popped through SCPI_ErrorPop are released by the harness exactly as SCPI_SystemErrorNextQ does; leak detection = "
                       "every pointer returned by the wrapped strndup must reach the wrapped free by the end of the case (LeakSanitizer at exit as a backstop)",
         "design_ref": "DESIGN.md section 4, C10",
@@ -309,7 +309,7 @@ PROPS = {
         "technique": "reference-model comparison (independent longest-fitting-prefix encoder and 488.2 string reader) over an enumerated grid of codes, text lengths and quote positions plus rapidcheck-generated texts",
         "level": "SYST:ERR? output for every code of the error list, a strided (quick) or complete (thorough) sweep of all 65536 codes, text "
                  "lengths 0..400 with quotes at and around the 255-character boundary, explicit and automatic info lengths, in the malloc "
-                 "build and the static-heap build (texts placed so that they wrap around the end of the heap) Third configuration: an application error list (USE_USER_ERROR_LIST) whose descriptions contain quotes and exceed the limit.",
+                 "build and the static-heap build (texts placed so that they wrap around the end of the heap) Third configuration: an application error list (USE_USER_ERROR_LIST) whose descriptions contain quotes and exceed the limit. Fourth configuration: the library compiled as C90 (texts duplicated by OUR_strndup).",
         "level_note": "descriptions are taken from the library's own LIST_OF_ERRORS macro (the property is about framing, not wording); for an "
                       "empty device-dependent text both 'desc' and 'desc;' are accepted",
         "design_ref": "DESIGN.md section 4, C18",
@@ -337,7 +337,7 @@ PROPS = {
         "technique": "differential against libstdc++ std::to_chars (Ryu) for the printf build; exact decimal distance oracle (__int128) for the built-in formatter at every precision",
         "level": "random doubles/floats over the whole exponent range, rounding-boundary and zero-digit values, every k*10^e, NaN/inf, in the "
                  "printf build (text identical to an independent %g implementation) and the USE_CUSTOM_DTOSTRE build (within one unit of "
-                 "the last requested digit for precisions 1..15, %g shape) A third of the random cases convert v, -v, v, -|v|, +|v| back to back.",
+                 "the last requested digit for precisions 1..15, %g shape) A third of the random cases convert v, -v, v, -|v|, +|v| back to back. Third configuration: the library compiled as C90 (-ansi: no snprintf, so the built-in formatter is used without USE_CUSTOM_DTOSTRE).",
         "level_note": "trusts libstdc++'s std::to_chars (general and scientific formats) as the independent reference for correctly rounded digits",
         "design_ref": "DESIGN.md section 4, C16",
         "runs": simple("c16", cfgs=("default", "dtostre", "ansi"), quick_workers=18, thorough_workers=18),
